@@ -105,41 +105,51 @@ Qed.
    no definition of to / type / clone / detach / cpu / cuda / double / float / half - neither the generic ones of
    LinearOperator nor an override - may return `self` (or a local alias of it), leave early under a test of
    self.dtype / self.device, or assign an attribute of `self`, except the documented ones *)
-Definition shape := (bool * bool * bool)%type.
-Definition shape_plain (s : shape) : bool := match s with (false, false, false) => true | _ => false end.
+Definition shape := (bool * bool * bool * bool)%type.
+Definition shape_plain (s : shape) : bool := match s with (false, false, false, false) => true | _ => false end.
 Definition shape_eqb (a b : shape) : bool :=
-  match a, b with (a1, a2, a3), (b1, b2, b3) => Bool.eqb a1 b1 && Bool.eqb a2 b2 && Bool.eqb a3 b3 end.
-(* (TransposePermutationLinearOperator.type - self._dtype = dtype; return self - has been repaired: no exception is left) *)
-Definition documented_shapes : list (string * string * shape) := [].
+  match a, b with (a1, a2, a3, a4), (b1, b2, b3, b4) => Bool.eqb a1 b1 && Bool.eqb a2 b2 && Bool.eqb a3 b3 && Bool.eqb a4 b4 end.
+(* documented exceptions, all of the fourth kind (a component of self can reach the result unchanged although it has the
+   method):
+     LinearOperator.type   the helper `_type_helper` returns its argument when it is not floating - it is only ever
+                           applied to a CLONE of the component (`_type_helper(arg.clone())`)
+     CatLinearOperator.to  documented behaviour: "this does not move the LinearOperators in this CatLinearOperator": the
+                           pieces are handed to the new operator (`*self._args`) and then converted by .type(dtype)
+   (TransposePermutationLinearOperator.type - self._dtype = dtype; return self - has been repaired) *)
+Definition documented_shapes : list (string * string * shape) :=
+  [ ("LinearOperator", "type", (false, false, false, true));
+    ("CatLinearOperator", "to", (false, false, false, true)) ].
 Definition row_eqb (a b : string * string * shape) : bool :=
   String.eqb (fst (fst a)) (fst (fst b)) && String.eqb (snd (fst a)) (snd (fst b)) && shape_eqb (snd a) (snd b).
 Definition shape_listed (r : string * string * shape) : bool := shape_plain (snd r) || existsb (row_eqb r) documented_shapes.
 (* the generic methods every class inherits must be in the table (the scan saw them) *)
 Definition base_methods : list string := ["to"; "type"; "clone"; "detach"; "cpu"; "double"; "float"].
-Definition base_present (m : string) : bool := existsb (row_eqb ("LinearOperator", m, (false, false, false))) method_shapes.
+Definition plain : shape := (false, false, false, false).
+Definition base_shape (m : string) : shape := if String.eqb m "type" then (false, false, false, true) else plain.
+Definition base_present (m : string) : bool := existsb (row_eqb ("LinearOperator", m, base_shape m)) method_shapes.
 
 Lemma method_shapes_checked : forallb shape_listed method_shapes = true /\ forallb base_present base_methods = true.
 Proof. vm_compute. split; reflexivity. Qed.
 
 Lemma row_eqb_eq a b : row_eqb a b = true -> a = b.
 Proof.
-  destruct a as [[o m] [[a1 a2] a3]], b as [[o' m'] [[b1 b2] b3]]. unfold row_eqb, shape_eqb. simpl. intros H.
-  apply andb_prop in H as [H S3]. apply andb_prop in H as [H1 H2].
-  apply andb_prop in S3 as [S3 E3]. apply andb_prop in S3 as [E1 E2].
+  destruct a as [[o m] [[[a1 a2] a3] a4]], b as [[o' m'] [[[b1 b2] b3] b4]]. unfold row_eqb, shape_eqb. simpl. intros H.
+  apply andb_prop in H as [H S4]. apply andb_prop in H as [H1 H2].
+  apply andb_prop in S4 as [S3 E4]. apply andb_prop in S3 as [S2 E3]. apply andb_prop in S2 as [E1 E2].
   apply String.eqb_eq in H1. apply String.eqb_eq in H2.
-  apply Bool.eqb_prop in E1. apply Bool.eqb_prop in E2. apply Bool.eqb_prop in E3.
+  apply Bool.eqb_prop in E1. apply Bool.eqb_prop in E2. apply Bool.eqb_prop in E3. apply Bool.eqb_prop in E4.
   subst. reflexivity.
 Qed.
 
 Lemma method_shapes_documented : forall o m s, In (o, m, s) method_shapes ->
-  s = (false, false, false) \/ In (o, m, s) documented_shapes.
+  s = plain \/ In (o, m, s) documented_shapes.
 Proof.
   intros o m s H. destruct method_shapes_checked as [A _]. rewrite forallb_forall in A. specialize (A _ H).
   unfold shape_listed in A. apply orb_prop in A as [A|A].
-  - left. simpl in A. destruct s as [[[|] [|]] [|]]; try discriminate A. reflexivity.
+  - left. simpl in A. destruct s as [[[[|] [|]] [|]] [|]]; try discriminate A. reflexivity.
   - right. apply existsb_exists in A as [r [Hr E]]. apply row_eqb_eq in E. subst r. exact Hr.
 Qed.
-Lemma base_methods_plain : forall m, In m base_methods -> In ("LinearOperator", m, (false, false, false)) method_shapes.
+Lemma base_methods_plain : forall m, In m base_methods -> In ("LinearOperator", m, base_shape m) method_shapes.
 Proof.
   intros m H. destruct method_shapes_checked as [_ B]. rewrite forallb_forall in B. specialize (B _ H).
   unfold base_present in B. apply existsb_exists in B as [r [Hr E]]. apply row_eqb_eq in E. subst r. exact Hr.
